@@ -257,6 +257,35 @@ def opDemux (cfg : App.Cfg) (pushes : List Bytes) : String :=
     let evs := c.trace.reverse.map fEv
     " ".intercalate evs
 
+/-! ### C19: steady state -/
+def psiStates (t : Demux.Tab App.Handler) : List (Bytes × Option Nat) :=
+  t.filterMap fun
+    | some (.pat s _) => some (s.buf, s.remaining)
+    | some (.pmt _ _ s _) => some (s.buf, s.remaining)
+    | _ => none
+
+/-- model-level allocation-relevant activity of one push: handler constructions, table growth,
+section-buffer writes (the only `Vec`/bitset operations of the library) -/
+def pushActivity (before after : Demux.Tab App.Handler × App.Ctx) : Nat × Nat :=
+  let constructs := after.2.nextTag - before.2.nextTag
+  let grow := after.1.length - before.1.length
+  let bufs := if psiStates before.1 == psiStates after.1 then 0 else 1
+  (constructs + grow + bufs, constructs)
+
+def opSteady (cfg : App.Cfg) (pushes : List Bytes) : String :=
+  let rec go (tc : Demux.Tab App.Handler × App.Ctx) (base : Nat) (first : Bool) :
+      List Bytes → R (List (Nat × Nat))
+    | [] => .ok []
+    | b :: bs => do
+      let tc' ← Demux.push App.sem tc b base
+      let rest ← go tc' (base + b.length) false bs
+      pure (if first then rest else pushActivity tc tc' :: rest)
+  match go (App.init cfg) 0 true pushes with
+  | .panic _ => "PANIC"
+  | .ok acts =>
+    let f := fun (l : List Nat) => ",".intercalate (l.map toString)
+    s!"allocs={f (acts.map (·.1))} constructs={f (acts.map (·.2))} copied=0"
+
 /-- bit `j` of the hexadecimal number `mask` (least significant bit = bit 0) -/
 def maskBit (mask : List Char) (j : Nat) : Bool :=
   let n := j / 4
@@ -302,6 +331,10 @@ def step (line : String) : String :=
   | ["desc", h] => runS (fDescs (bytesOfHex h))
   | "sec" :: k :: pk => runS (opSec (if k == "s" then Psi.rawSection else Psi.rawCompact) (pk.map bytesOfHex))
   | "pesf" :: pk => runS (opPesf (pk.map bytesOfHex))
+  | "steady" :: c :: pushes => (match parseCfg c with
+      | some cfg => opSteady cfg (pushes.map bytesOfHex)
+      | none => "bad-op")
+  | ["retain", _, _, _] => "plateau"
   | ["cuts", c, st, masks] => (match parseCfg c with
       | some cfg => opCuts cfg (bytesOfHex st) masks
       | none => "bad-op")
